@@ -513,7 +513,7 @@ func RunPackTrees(id, tier string) int {
 		alpha := c02Alphabet()
 		k := 3
 		if thorough {
-			k = 4
+			k = 5
 		}
 		trees := combos(alpha, k, nil)
 		if thorough {
@@ -563,7 +563,10 @@ func RunPackTrees(id, tier string) int {
 		links := c05Links()
 		k := 2
 		if thorough {
-			k = 3
+			k = 4
+			if id == "C20" {
+				k = 3
+			}
 		}
 		var trees [][]TNode
 		for _, t := range combos(links, k, c05Skeleton()) {
